@@ -680,7 +680,7 @@ def ir_inv(s):
     N, A, B = lift(su.N), lift(su.A), lift(su.B)
     r = N / 2                                            # reference: radius = output_size // 2, output_size = N
     filt = log[1]["out"].re                              # real(ifft(...)) BEFORE cropping: F(b, a, n) for every integer n
-    theta = s.theta
+    theta = su.theta if isinstance(su.theta, SymArr) else s.theta     # the caller's angles (see rd_inv)
     sp = ir_spec(su, theta, filt, N, r)
     ctx.ghost["c07_ir"] = dict(spec=sp, theta=theta, out=N)
     b, y, x = PX
@@ -854,8 +854,15 @@ def rd_setup(ctx):
     s = _sizes(ctx, NS())
     del s.A
     s.images = fresh_tensor(ctx, "img", (s.B, s.N, s.N))
-    s.T = ctx.fresh("T", "int")
-    s.theta = fresh_tensor(ctx, "theta", (s.T,))
+    s.theta_none = bool(ctx.branch(ctx.fresh("theta_is_None", "bool").t))
+    if s.theta_none:
+        # default angles: the body's `torch.arange(180)` is kept as the index function i -> i (library model), so the SAME loop contract
+        # verifies the default at an arbitrary angle index; the postcondition states that the angles used are skimage's default arange(180)
+        s.theta, s.T = None, S(180)
+        ctx.ghost["c07_arange_as_index_function"] = True
+    else:
+        s.T = ctx.fresh("T", "int")
+        s.theta = fresh_tensor(ctx, "theta", (s.T,))
     s.device = None
     return s
 
@@ -897,89 +904,170 @@ def rd_spec_sum(s_images, N, theta, b, a, j):
     return lift(reals.sigma(N, summand)), summand
 
 
+def _valid(hyps, goal, gen=()):
+    """Side query (deterministic resource limit, independent of machine load): is `goal` valid under `hyps`?  Only used to CHOOSE
+    between candidate row permutations; the chosen statement is then emitted as an obligation."""
+    sub = (lambda t: z3.substitute(lift(t), *gen)) if gen else lift
+    fs = [sub(h) for h in hyps] + [z3.Not(sub(goal))]
+    r = z3.unknown
+    for rl in (8000000, 80000000):          # an inconclusive first attempt is repeated once with ten times the (deterministic) budget
+        chk = z3.Solver()
+        chk.set("rlimit", rl)
+        chk.set("timeout", 600000)
+        chk.add(*fs)
+        r = chk.check()
+        if r != z3.unknown:
+            break
+    return r == z3.unsat
+
+
+QUARTER_COS, QUARTER_SIN = (1, 0, -1, 0), (0, 1, 0, -1)
+GEO = "sampled-source-coordinate-of-(row-sigma(i),column-j)=skimage's-sample-point(rotation-about-pixel-N//2)"
+
+
+def quarter_turn_facts(ctx, theta_deg):
+    """A4 (ground instance): for an integer n, cos(n*pi/2), sin(n*pi/2) = (1,0), (0,1), (-1,0), (0,-1) for n = 0, 1, 2, 3 (mod 4).
+    Instantiated at n = floor(theta/90) when the path condition says theta = 90*n; returns the list of hypotheses (empty when the
+    angle of this iteration is not known to be a multiple of 90 degrees)."""
+    th = reals._real(theta_deg)
+    n = z3.ToInt(th / 90)
+    ang = th * V.PI / 180
+    quarter = th == 90 * z3.ToReal(n)
+    if not ctx.entails(quarter):
+        return []
+    for c in range(4):
+        if ctx.entails(n % 4 == c):
+            return [quarter, n % 4 == c, reals.F["cos"](ang) == QUARTER_COS[c], reals.F["sin"](ang) == QUARTER_SIN[c]]
+    return [quarter] + [implies(n % 4 == c, AND(reals.F["cos"](ang) == QUARTER_COS[c], reals.F["sin"](ang) == QUARTER_SIN[c])) for c in range(4)]
+
+
 def rd_inv(s):
     """Loop over the angles.  Invariant at the arbitrary entry PXR: every finished row a < k of the sinogram buffer equals the reference
     sum.  Only the buffer `radon_images` and the parameter `theta` are referred to by name; everything else comes from the
-    grid_sample call observed by the model (its input, its grid, its output)."""
+    sampler call observed by the library model (its input, its source coordinates, its output): `grid_sample` (bilinear sampling of a
+    rotated grid) or `rot90` (an exact index map)."""
     ctx = s.ctx
     su = ctx.ghost["c07_setup_rd"]
     par = su.par
     b, a, j = PXR
     k = lift(s.k)
-    N, B, A = lift(su.N), lift(su.B), lift(su.T)
+    N, B, A = lift(su.N), lift(su.B), lift(S(s.theta.shape[0]))
     src = su.images                                   # the caller's tensor
     inrange = AND(_rng(b, B), _rng(j, N), a >= 0)
-    spec_a, _ = rd_spec_sum(src, N, s.theta, b, a, j)
+    # the reference statement is about the CALLER's angles (the argument), not about whatever tensor the body iterates over; for the
+    # default (theta=None) it is the body's own tensor, tied to skimage's arange(180) by its postcondition
+    th_ref = su.theta if isinstance(su.theta, SymArr) else s.theta
+    spec_a, _ = rd_spec_sum(src, N, th_ref, b, a, j)
     ctx.ghost["c07_rd"] = dict(inrange=inrange, spec=spec_a, theta=s.theta)
-    gs = M7.gs_log(ctx)
-    if not gs:
+    # which of the three evaluations of the invariant is this?  entry (k = 0) | arbitrary iteration (k fresh) | after the body (k + 1)
+    kt = z3.simplify(k)
+    after_body = (not z3.is_int_value(kt)) and "c07_rd_k" in ctx.ghost and not ctx.ghost["c07_rd_k"].eq(kt)
+    if not after_body:
+        if not z3.is_int_value(kt):
+            ctx.ghost["c07_rd_k"] = kt
         inv = implies(AND(inrange, a < k), lift(s.radon_images.fn(b, a, j)) == spec_a)
         ctx.ghost["c07_rd_inv_k"] = inv
         return [(f"rows-done-equal-the-reference-sum", inv)]
     # ---- after the body: chain of obligations about iteration kk = k - 1
+    gs, rl = M7.gs_log(ctx), M7.rot_log(ctx)
     kk = z3.simplify(k - 1)
     lid = "radon_torch@loop0:inv-preserved:"
     i = ROW
     base = [B >= 1, N >= 2, N % 2 == (1 if par == "odd N" else 0), _rng(b, B), _rng(j, N), _rng(i, N), kk >= 0, kk < A]
-    if len(gs) != 1:
-        emit(ctx, lid + "exactly-one-grid_sample-call-per-angle", False, base)
+    one = emit(ctx, lid + "exactly-one-sampler-call-per-angle(grid_sample-or-exact-index-map)", z3.BoolVal(len(gs) + len(rl) == 1), base)
+    if len(gs) + len(rl) != 1:
         return []
-    g = gs[0]
     z0, z1 = z3.IntVal(0), z3.IntVal(1)
-    xpix, ypix = lift(g["xpix"](b, i, j)), lift(g["ypix"](b, i, j))
-    g_shape = emit(ctx, lid + "grid_sample-input-and-grid-are-[B,1,N,N]-and-[B,N,N,2]",
-                   AND(g["input"].ndim == 4, g["grid"].ndim == 4, *[lift(S(d)) == e for d, e in zip(g["input"].shape, (B, z1, N, N))],
-                       *[lift(S(d)) == e for d, e in zip(g["grid"].shape, (B, N, N, z3.IntVal(2)))]), base)
-    D = R("Nm1!gen")
-    Wm1, Hm1 = z3.ToReal(lift(S(g["input"].shape[3])) - 1), z3.ToReal(lift(S(g["input"].shape[2])) - 1)
-    gen_d = [(Wm1, D), (Hm1, D), (z3.ToReal(N - 1), D)]
-
-    def geo(sig_i):
-        xs_, ys_ = sk_point(N, s.theta.fn(kk), sig_i, j)
-        return xs_, ys_, AND(xpix == xs_, ypix == ys_)
-
-    # the rows sampled by the port must be a permutation sigma of the rows scikit-image samples: sigma = identity, or the reflection
-    # i -> N-1-i (what the unchanged tree does: its rotation matrix has the second row negated)
-    xs, ys, goal_id = geo(i)
-    chk = z3.Solver()
-    chk.set("rlimit", 8000000)   # deterministic resource limit: the branch taken here must not depend on the load of the machine
-    chk.set("timeout", 600000)
-    chk.add(*[z3.substitute(lift(h), *gen_d) for h in base + [g_shape, D >= 1]], z3.Not(z3.substitute(goal_id, *gen_d)))
-    identity = chk.check() == z3.unsat
-    if identity:
-        sigma_i = i
-        o2 = emit(ctx, lid + f"sampled-rows-are-a-permutation-of-the-reference-rows(identity-or-reflection-about-N//2)[{par}]", z3.BoolVal(True), base)
-    else:
-        sigma_i = N - 1 - i
-        xs, ys, _ = geo(sigma_i)
-        o2 = emit(ctx, lid + f"sampled-rows-are-a-permutation-of-the-reference-rows(identity-or-reflection-about-N//2)[{par}]", 2 * (N / 2) == N - 1, base)
-    g_geo = emit(ctx, lid + "grid-un-normalised-with-align_corners=True-is-skimage's-sample-point-of-(row-sigma(i),column-j)", AND(xpix == xs, ypix == ys),
-                 base + [o2, g_shape, z3.ToReal(N - 1) >= 1], gen=gen_d)
     pix = masked_pixel(src, N)
     rr, cc = I("r!pix"), I("c!pix")
-    H_, W_ = g["input"].shape[2], g["input"].shape[3]
-    shp = AND(lift(S(H_)) == N, lift(S(W_)) == N)
-    code_read = lambda r_, c_: M7.guarded_pixel(lambda r2, c2: g["input"].fn(b, z0, r2, c2), H_, W_, r_, c_)   # noqa: E731
     spec_read = lambda r_, c_: M7.guarded_pixel(lambda r2, c2: pix(b, r2, c2), N, N, r_, c_)                  # noqa: E731
-    g_in = emit(ctx, lid + "sampled-image-is-the-disc-masked-input-(zero-outside-the-frame)", code_read(rr, cc) == spec_read(rr, cc), base + [g_shape])
-    # summand(i) of the code == summand(N-1-i) of the reference
-    _, summand = rd_spec_sum(src, N, s.theta, b, kk, j)
-    code_val = reals._real(g["out"].fn(b, z0, i, j))
-    via_spec_pixels = lift(M7.bilinear_zero(lambda r_, c_: pix(b, r_, c_), N, N, xpix, ypix))
-    Xp, Yp = R("xpix!gen"), R("ypix!gen")
-    y0_, x0_ = z3.ToInt(ypix), z3.ToInt(xpix)
-    corners = [(ry, cx_) for ry in (y0_, y0_ + 1) for cx_ in (x0_, x0_ + 1)]
-    inst = [z3.substitute(g_in, (rr, ry), (cc, cx_)) for ry, cx_ in corners]        # g_in holds for arbitrary integers (r, c)
-    gen_reads = [(code_read(ry, cx_), R(f"code_read{q}!gen")) for q, (ry, cx_) in enumerate(corners)] + \
-                [(spec_read(ry, cx_), R(f"spec_read{q}!gen")) for q, (ry, cx_) in enumerate(corners)]
-    g_s1 = emit(ctx, lid + "sampled-value=bilinear-zero-padded-sample-of-the-masked-image", code_val == via_spec_pixels, inst, gen=gen_reads)
-    Xs, Ys = R("xs!gen"), R("ys!gen")
-    g_s2 = emit(ctx, lid + "code-summand(i)=reference-summand(sigma(i))", code_val == lift(summand(sigma_i)),
-                base + [g_s1, g_geo], gen=[(xpix, Xp), (ypix, Yp), (xs, Xs), (ys, Ys)])
-    # the same reduction applied to the tensor returned by grid_sample: sum over axis 1 (the rows i) of sampled[b, 0, i, j]
-    code_sum = reals._real(g["out"].squeeze(1).sum(dim=1).fn(b, j))
+    _, summand = rd_spec_sum(src, N, th_ref, b, kk, j)
+    th_k = th_ref.fn(kk)
+
+    def geo(xsrc, ysrc, sig_i):
+        xs_, ys_ = sk_point(N, th_k, sig_i, j)
+        return xs_, ys_, AND(xsrc == xs_, ysrc == ys_)
+
+    if gs:
+        g = gs[0]
+        xpix, ypix = lift(g["xpix"](b, i, j)), lift(g["ypix"](b, i, j))
+        g_shape = emit(ctx, lid + "grid_sample-input-and-grid-are-[B,1,N,N]-and-[B,N,N,2]",
+                       AND(g["input"].ndim == 4, g["grid"].ndim == 4, *[lift(S(d)) == e for d, e in zip(g["input"].shape, (B, z1, N, N))],
+                           *[lift(S(d)) == e for d, e in zip(g["grid"].shape, (B, N, N, z3.IntVal(2)))]), base)
+        D = R("Nm1!gen")
+        Wm1, Hm1 = z3.ToReal(lift(S(g["input"].shape[3])) - 1), z3.ToReal(lift(S(g["input"].shape[2])) - 1)
+        gen_d = [(Wm1, D), (Hm1, D), (z3.ToReal(N - 1), D)]
+        # the rows sampled by the port must be a permutation sigma of the rows scikit-image samples: sigma = identity, or the reflection
+        # i -> N-1-i (what the unchanged tree does: its rotation matrix has the second row negated)
+        xs, ys, goal_id = geo(xpix, ypix, i)
+        identity = _valid(base + [g_shape, D >= 1], goal_id, gen_d)   # the branch taken here must not depend on the load of the machine
+        if identity:
+            sigma_i = i
+            o2 = emit(ctx, lid + f"sampled-rows-are-a-permutation-of-the-reference-rows(identity-or-reflection-about-N//2)[{par}]", z3.BoolVal(True), base)
+        else:
+            sigma_i = N - 1 - i
+            xs, ys, _ = geo(xpix, ypix, sigma_i)
+            o2 = emit(ctx, lid + f"sampled-rows-are-a-permutation-of-the-reference-rows(identity-or-reflection-about-N//2)[{par}]", 2 * (N / 2) == N - 1, base)
+        g_geo = emit(ctx, lid + GEO, AND(xpix == xs, ypix == ys), base + [o2, g_shape, z3.ToReal(N - 1) >= 1], gen=gen_d)
+        H_, W_ = g["input"].shape[2], g["input"].shape[3]
+        code_read = lambda r_, c_: M7.guarded_pixel(lambda r2, c2: g["input"].fn(b, z0, r2, c2), H_, W_, r_, c_)   # noqa: E731
+        g_in = emit(ctx, lid + "sampled-image-is-the-disc-masked-input-(zero-outside-the-frame)", code_read(rr, cc) == spec_read(rr, cc), base + [g_shape])
+        # summand(i) of the code == summand(sigma(i)) of the reference
+        code_val = reals._real(g["out"].fn(b, z0, i, j))
+        via_spec_pixels = lift(M7.bilinear_zero(lambda r_, c_: pix(b, r_, c_), N, N, xpix, ypix))
+        Xp, Yp = R("xpix!gen"), R("ypix!gen")
+        y0_, x0_ = z3.ToInt(ypix), z3.ToInt(xpix)
+        corners = [(ry, cx_) for ry in (y0_, y0_ + 1) for cx_ in (x0_, x0_ + 1)]
+        inst = [z3.substitute(g_in, (rr, ry), (cc, cx_)) for ry, cx_ in corners]        # g_in holds for arbitrary integers (r, c)
+        gen_reads = [(code_read(ry, cx_), R(f"code_read{q}!gen")) for q, (ry, cx_) in enumerate(corners)] + \
+                    [(spec_read(ry, cx_), R(f"spec_read{q}!gen")) for q, (ry, cx_) in enumerate(corners)]
+        g_s1 = emit(ctx, lid + "sampled-value=bilinear-zero-padded-sample-of-the-masked-image", code_val == via_spec_pixels, inst, gen=gen_reads)
+        Xs, Ys = R("xs!gen"), R("ys!gen")
+        g_s2 = emit(ctx, lid + "code-summand(i)=reference-summand(sigma(i))", code_val == lift(summand(sigma_i)),
+                    base + [g_s1, g_geo], gen=[(xpix, Xp), (ypix, Yp), (xs, Xs), (ys, Ys)])
+        # the same reduction applied to the tensor returned by grid_sample: sum over axis 1 (the rows i) of sampled[b, 0, i, j]
+        code_sum = reals._real(g["out"].squeeze(1).sum(dim=1).fn(b, j))
+    else:
+        # ---- an exact index map (rot90) instead of interpolation: out[b, i, j] = input[b, row_src(i,j), col_src(i,j)]
+        g = rl[0]
+        inp, out_t = g["input"], g["out"]
+        ok_shape = inp.ndim == 3 and out_t.ndim == 3 and tuple(g["dims"]) == (1, 2)
+        g_shape = emit(ctx, lid + "index-map-input-and-output-are-[B,N,N]-rotated-in-the-image-plane",
+                       AND(z3.BoolVal(ok_shape), *[lift(S(d)) == e for d, e in zip(inp.shape, (B, N, N))], *[lift(S(d)) == e for d, e in zip(out_t.shape, (B, N, N))])
+                       if ok_shape else z3.BoolVal(False), base)
+        if not ok_shape:
+            return []
+        row_src, col_src = (lift(t_) for t_ in g["source"](i, j))
+        xsrc, ysrc = z3.ToReal(col_src), z3.ToReal(row_src)
+        ang = reals._real(th_k) * V.PI / 180
+        c_, s_ = reals.F["cos"](ang), reals.F["sin"](ang)
+        Cc, Ss = R("cos!gen"), R("sin!gen")
+        gen_t = [(c_, Cc), (s_, Ss)]
+        trig = quarter_turn_facts(ctx, th_k)       # A4 ground instance; [] unless this iteration's angle is a known multiple of 90 degrees
+        hyps_geo = base + [g_shape] + trig
+        sigma_i = i
+        xs, ys, goal = geo(xsrc, ysrc, i)
+        if not _valid(hyps_geo, goal, gen_t):
+            xs_r, ys_r, goal_r = geo(xsrc, ysrc, N - 1 - i)
+            if _valid(hyps_geo, goal_r, gen_t):
+                sigma_i, xs, ys, goal = N - 1 - i, xs_r, ys_r, goal_r
+        # identity and reflection are both permutations of [0, N); if neither matches, the identity is kept and the geometry clause fails
+        o2 = emit(ctx, lid + f"sampled-rows-are-a-permutation-of-the-reference-rows(identity-or-reflection-about-N//2)[{par}]", z3.BoolVal(True), base)
+        g_geo = emit(ctx, lid + GEO, goal, hyps_geo, gen=gen_t)
+        g_rng = emit(ctx, lid + "index-map-source-pixel-lies-inside-the-frame", AND(_rng(row_src, N), _rng(col_src, N)), base + [g_shape])
+        code_read = lambda r_, c_: M7.guarded_pixel(lambda r2, c2: inp.fn(b, r2, c2), inp.shape[1], inp.shape[2], r_, c_)   # noqa: E731
+        g_in = emit(ctx, lid + "sampled-image-is-the-disc-masked-input-(zero-outside-the-frame)", code_read(rr, cc) == spec_read(rr, cc), base + [g_shape])
+        code_val = reals._real(out_t.fn(b, i, j))
+        # bilinear sample at an integer position = the pixel itself (weights 1, 0, 0, 0)
+        at_src = lift(M7.bilinear_zero(lambda r_, c_: pix(b, r_, c_), N, N, xsrc, ysrc))
+        inst = [z3.substitute(g_in, (rr, row_src), (cc, col_src))]
+        g_s1 = emit(ctx, lid + "sampled-value=bilinear-zero-padded-sample-of-the-masked-image", code_val == at_src, base + [g_shape, g_rng] + inst)
+        Xs, Ys = R("xs!gen"), R("ys!gen")
+        g_s2 = emit(ctx, lid + "code-summand(i)=reference-summand(sigma(i))", code_val == lift(summand(sigma_i)),
+                    base + [g_s1, g_geo], gen=[(xs, Xs), (ys, Ys)])
+        code_sum = reals._real(out_t.sum(dim=1).fn(b, j))
     g_sum = emit(ctx, lid + "row-k-of-the-sinogram=sum-over-the-rows-of-the-sampled-grid", reals._real(s.radon_images.fn(b, kk, j)) == code_sum, base)
-    spec_k, _ = rd_spec_sum(src, N, s.theta, b, kk, j)
+    spec_k, _ = rd_spec_sum(src, N, th_ref, b, kk, j)
     # T2 (trusted Sigma re-indexing): sum_{i<N} f(i) = sum_{r<N} g(r) when f(i) = g(sigma(i)) for a permutation sigma of [0,N)  (premises: the obligations above)
     reindex = code_sum == spec_k
     emit(ctx, lid + f"rows-done-equal-the-reference-sum",
@@ -1010,6 +1098,11 @@ def rd_ensures(s):
     rng = AND(g["inrange"], a < T, *([b == 0] if res.ndim == 2 else []))
     out.append((f"sinogram[b,a,j]=sum_r-bilinear(masked-image_b;skimage-sample-point(theta_a,r,j))[{s.par}]", implies(rng, reals._real(res.fn(*idx)) == g["spec"])))
     out.append(("input-images-not-modified", s.images.writes == 0))
+    if s.theta_none:
+        q = I("q!ang")
+        th = g["theta"]
+        out.append(("default-theta-is-skimage's-np.arange(180)", AND(lift(S(th.shape[0])) == 180, forall(q, implies(_rng(q, 180), reals._real(th.fn(q)) == z3.ToReal(q))))
+                    if isinstance(th, SymArr) and th.ndim == 1 else False))
     return out
 
 
@@ -1025,9 +1118,28 @@ def rd_conc(ev):
     N = N if N is not None else (None if m is None else 2 * m + (1 if odd else 0))
     if N is None or not 2 <= N <= 33:
         N = 9 if odd else 8
+    if N < 4:
+        N += 4                      # same parity, non-degenerate disc
     T = T if (T is not None and 1 <= T <= 6) else 3
     B = B if (B is not None and 1 <= B <= 3) else 2
-    return dict(N=N, B=B, theta=[round(11.0 + 160.0 * q / T, 3) for q in range(T)], kinds=["random", "delta", "smooth"])
+    theta = [round(11.0 + 160.0 * q / T, 3) for q in range(T)]
+    # the angle of the iteration the counter-model is about (theta!0 at k!0), then the axis-aligned angles: obligations about an
+    # angle-dependent branch of the loop body are replayed on an angle set that reaches that branch
+    try:
+        m, kv = ev.model, ev("k")
+        for d in m.decls():
+            if d.name().startswith("theta!") and d.arity() == 1 and kv is not None:
+                v = m.eval(d(z3.IntVal(int(kv))), model_completion=True)
+                if z3.is_rational_value(v):
+                    v = float(v.numerator_as_long()) / float(v.denominator_as_long())
+                    if 0.0 <= v <= 360.0 and v not in theta:
+                        theta.append(round(v, 6))
+    except Exception:  # noqa: BLE001
+        pass
+    theta += [t_ for t_ in (0.0, 90.0, 180.0) if t_ not in theta]
+    if ev("theta_is_None", False):
+        theta = None
+    return dict(N=N, B=B, theta=theta, kinds=["random", "delta", "smooth"])
 
 
 def fam_radon_ok():
@@ -1042,7 +1154,305 @@ C_RADON = Contract(
     concretize=rd_conc, rt=rt_radon, rt_family=fam_radon_ok,
 )
 
-CONTRACTS = [C_FILTER, C_IRADON, C_RADON]
+# ----------------------------------------------------------------------------------------------------------------------
+# the caller: TomographyConv._sirt_run_epoch (tomography_conv.py), the only call site of the transforms in quantem
+# ----------------------------------------------------------------------------------------------------------------------
+TC = "quantem.tomography.tomography_conv"
+OM = "quantem.tomography.object_models"
+PXV = (I("b!vx"), I("y!vx"), I("x!vx"))     # arbitrary voxel of the volume
+PXS = (I("b!sg"), I("a!sg"), I("j!sg"))     # arbitrary sinogram entry
+
+
+def _caller(s):
+    return s.ctx.ghost.get("c07_caller")
+
+
+def sirt_setup(ctx):
+    from quantem.tomography.object_models import ObjectVoxelwise
+    from quantem.tomography.tomography_conv import TomographyConv
+
+    s = NS()
+    s.B, s.A, s.N = ctx.fresh("B", "int"), ctx.fresh("A", "int"), ctx.fresh("N", "int")
+    s.vol_raw = fresh_tensor(ctx, "_obj", (s.B, s.N, s.N))
+    s.volume_obj = V.Obj(ObjectVoxelwise, {"_obj": s.vol_raw})
+    s.device_name = "cpu"
+    s.self = V.Obj(TomographyConv, {"_volume_obj": s.volume_obj, "_device": s.device_name})
+    s.tilt_series = fresh_tensor(ctx, "tilt", (s.B, s.A, s.N))
+    s.proj_forward = fresh_tensor(ctx, "proj", (s.B, s.A, s.N))
+    s.angles = fresh_tensor(ctx, "angles", (s.A,))
+    s.inline_alignment = False              # the alignment pre-pass (phase cross-correlation) is outside C07
+    s.filter_name = ctx.fresh("filter_name", "str")     # an arbitrary name: the caller only forwards it
+    s.circle = ctx.fresh("circle", "bool")              # an arbitrary flag: the caller only forwards it
+    s.gaussian_kernel = None
+    s.ir_calls = []
+    ctx.ghost["c07_caller"] = s
+    return s
+
+
+def sirt_requires(s):
+    return [("B>=1", lift(s.B) >= 1), ("A>=1", lift(s.A) >= 1), ("N>=2", lift(s.N) >= 2), ("N<=2^29", lift(s.N) <= 2 ** 29),
+            # scope: with circle=False the real function raises RuntimeError at `_obj += correction` (reconstruction [M,M], M=floor(N/sqrt2),
+            # volume [N,N]) - recorded as a known finding of the bounded caller check, see ASSUMPTIONS
+            ("circle=True", lift(s.circle))]
+
+
+def _B(s, ok):
+    """A decided call-site fact as an obligation: True, or - when it does NOT hold - a fresh unconstrained Boolean (refutable, so the
+    named precondition fails with a model) instead of the literal `false`, which would make the rest of the caller's path vacuous."""
+    return z3.BoolVal(True) if ok else s.ctx.fresh("call_site_fact_does_not_hold", "bool").t
+
+
+def _same(s, a, b):
+    """`a` is the caller's own value `b` in the data-flow sense: the same object; for scalars the same term, or a term equal to it for
+    EVERY value of the caller's arguments (decided without the path condition: a literal that merely coincides with the caller's
+    value on the current path is not the caller's value)."""
+    if a is b:
+        return z3.BoolVal(True)
+    if isinstance(a, (SymArr, V.Obj)) or isinstance(b, (SymArr, V.Obj)) or a is None or b is None:
+        return _B(s, False)
+    try:
+        ta, tb = lift(S(a)), lift(S(b))
+        return _B(s, bool(ta.eq(tb) or (ta.sort() == tb.sort() and _valid([], ta == tb))))
+    except Exception:  # noqa: BLE001
+        return _B(s, bool(a == b))
+
+
+# -- ObjectConstraints.apply_hard_constraints: ASSUMED shape-only contract (the object model is outside C07: whatever volume it
+#    returns is "the caller's volume")
+def hc_requires(s):
+    return [("argument-is-the-object-model's-own-_obj", _B(s, s.obj is s.self.fields.get("_obj")))]
+
+
+def hc_result(ctx, s):
+    cs = _caller(s)
+    r = fresh_tensor(ctx, "volume", s.obj.shape)
+    if cs is not None:
+        cs.vol = r
+    return r
+
+
+C_HARD = Contract(f"{OM}:ObjectConstraints.apply_hard_constraints", requires=hc_requires, result=hc_result, ensures=lambda s: [])
+
+
+# -- call-site contracts of the two transforms (apply mode only; their bodies are verified by C_RADON / C_IRADON above)
+def rdc_requires(s):
+    cs = _caller(s)
+    im = s.images
+    ok3 = isinstance(im, SymArr) and im.ndim == 3 and isinstance(s.theta, SymArr) and s.theta.ndim == 1
+    return [("images-is-the-volume-returned-by-the-caller's-object-model(self.volume_obj.obj)", _B(s, im is getattr(cs, "vol", None))),
+            ("theta-is-the-caller's-angles", _same(s, s.theta, cs.angles)),
+            ("device-is-the-caller's-device", _same(s, s.device, cs.device_name)),
+            ("images-are-[B,N,N]-square-slices-with-B>=1,N>=2;theta-is-1-D", AND(lift(S(im.shape[0])) >= 1, lift(S(im.shape[1])) == lift(S(im.shape[2])), lift(S(im.shape[2])) >= 2) if ok3 else _B(s, False))]
+
+
+def rdc_result(ctx, s):
+    cs = _caller(s)
+    im, th = s.images, s.theta
+    Bq, Nq, Tq = im.shape[0], im.shape[2], th.shape[0]
+    shape = (Tq, Nq) if ctx.branch(lift(S(Bq)) == 1) else (Bq, Tq, Nq)      # the batch axis is dropped for a single image (C_RADON's shape clause)
+    r = fresh_tensor(ctx, "sinogram", shape)
+    cs.sino = r
+    return r
+
+
+C_RADON_CALL = Contract(f"{RAD}:radon_torch", requires=rdc_requires, result=rdc_result, ensures=lambda s: [])
+
+
+def _el(t, idx):
+    """Generic element of a [B,..] tensor or of its batch-dropped form."""
+    return reals._real(t.fn(*idx[-t.ndim:]))
+
+
+def irc_requires(s):
+    cs = _caller(s)
+    n = len(cs.ir_calls)
+    sg = s.sinograms
+    b, a, j = PXS
+    ok = isinstance(sg, SymArr) and sg.ndim in (2, 3) and isinstance(s.theta, SymArr) and s.theta.ndim == 1
+    out = [("theta-is-the-caller's-angles", _same(s, s.theta, cs.angles)),
+           ("circle-is-the-caller's-circle-flag", _same(s, s.circle, cs.circle)),
+           ("device-is-the-caller's-device", _same(s, s.device, cs.device_name)),
+           ("output_size-is-the-default-or-the-detector-width(the-volume's-slice-size)",
+            z3.BoolVal(True) if s.output_size is None else (lift(S(s.output_size)) == lift(S(sg.shape[-1])) if isinstance(sg, SymArr) and not isinstance(s.output_size, SymArr) else _B(s, False))),
+           ("sinograms-are-[B,A,N]-with-A=len(theta)>=1,N>=2", AND(lift(S(sg.shape[-2])) == lift(S(s.theta.shape[0])), lift(S(sg.shape[-2])) >= 1, lift(S(sg.shape[-1])) >= 2,
+                                                                  lift(S(sg.shape[-1])) <= 2 ** 29, *([lift(S(sg.shape[0])) >= 1] if sg.ndim == 3 else [])) if ok else _B(s, False))]
+    if not ok:
+        return out
+    rng = AND(*[_rng(q, d) for q, d in zip((b, a, j)[-sg.ndim:], sg.shape)])
+    have_sino = isinstance(getattr(cs, "sino", None), SymArr)
+    if n == 0:
+        out.append(("first-call:filter_name-is-the-caller's-filter_name", _same(s, s.filter_name, cs.filter_name)))
+        out.append(("first-call:sinogram-is-the-residual-tilt_series-minus-forward-projection-of-the-current-volume",
+                    implies(rng, _el(sg, (b, a, j)) == _el(cs.tilt_series, (b, a, j)) - _el(cs.sino, (b, a, j))) if have_sino and sg.ndim == 3 else _B(s, False)))
+    elif n == 1:
+        first = cs.ir_calls[0]["sinograms"]
+        out.append(("second-call:filter_name-is-None(the-unfiltered-back-projection-of-ones-normalises)", _B(s, s.filter_name is None)))
+        out.append(("second-call:sinogram-is-all-ones-of-the-residual's-shape",
+                    AND(_B(s, sg.ndim == first.ndim), *[lift(S(d)) == lift(S(e)) for d, e in zip(sg.shape, first.shape)], implies(rng, _el(sg, (b, a, j)) == 1))
+                    if sg.ndim == first.ndim else _B(s, False)))
+    else:
+        out.append(("at-most-two-back-projections-per-epoch", _B(s, False)))
+    return out
+
+
+def irc_result(ctx, s):
+    cs = _caller(s)
+    sg = s.sinograms
+    Nq = lift(S(sg.shape[-1]))
+    c = lift(S(s.circle)) if not isinstance(s.circle, bool) else z3.BoolVal(s.circle)
+    # output size: the one asked for, else that of C_IRADON's shape clauses - N in circle mode, floor(N/sqrt2) otherwise
+    if s.output_size is not None:
+        M_ = S(s.output_size)
+    elif ctx.entails(c):
+        M_ = S(sg.shape[-1])
+    else:
+        M_ = ctx.fresh("M", "int")
+        ctx.assume(AND(M_.t >= 0, implies(c, M_.t == Nq), implies(NOT(c), AND(2 * M_.t * M_.t <= Nq * Nq, 2 * (M_.t + 1) * (M_.t + 1) > Nq * Nq))))
+    single = sg.ndim == 2 or ctx.branch(lift(S(sg.shape[0])) == 1)
+    r = fresh_tensor(ctx, "recon", (M_, M_) if single else (sg.shape[0], M_, M_))
+    cs.ir_calls.append(dict(sinograms=sg, filter_name=s.filter_name, result=r, func=r.func, M=M_))
+    return r
+
+
+C_IRADON_CALL = Contract(f"{RAD}:iradon_torch", requires=irc_requires, result=irc_result, ensures=lambda s: [])
+
+
+def sirt_ensures(s):
+    if s.mode != "verify":
+        return []
+    ctx = s.ctx
+    res = s.result
+    b, y, x = PXV
+    bs, a, j = PXS
+    out = [("one-forward-projection-and-two-back-projections", z3.BoolVal(isinstance(getattr(s, "sino", None), SymArr) and len(s.ir_calls) == 2))]
+    if not (isinstance(getattr(s, "sino", None), SymArr) and len(s.ir_calls) == 2):
+        return out
+    ok_t = isinstance(res, tuple) and len(res) == 2
+    out.append(("returns-(forward-projection-of-the-volume-before-the-update,loss)", z3.BoolVal(ok_t and res[0] is s.sino and s.sino.writes == 0)))
+    means = ctx.ghost.get("c07_mean", [])
+    if ok_t and len(means) == 1 and isinstance(res[1], Sym) and lift(res[1]).eq(lift(means[0]["out"])) and means[0]["src"].ndim == 3:
+        src = means[0]["src"]
+        rng = AND(*[_rng(q, d) for q, d in zip((bs, a, j), src.shape)])
+        d_ = _el(s.tilt_series, (bs, a, j)) - _el(s.sino, (bs, a, j))
+        out.append(("loss=mean|tilt_series-forward-projection|", AND(*[lift(S(d)) == lift(e) for d, e in zip(src.shape, (s.B, s.A, s.N))],
+                                                                    implies(rng, reals._real(src.fn(bs, a, j)) == z3.If(d_ >= 0, d_, -d_)))))
+    else:
+        out.append(("loss=mean|tilt_series-forward-projection|", z3.BoolVal(False)))
+    # the volume update at an arbitrary voxel: _obj += correction / normalisation, zeros of the normalisation replaced by 1e-6
+    new = s.volume_obj.fields.get("_obj")
+    c1, c2 = s.ir_calls
+    M_ = lift(c1["M"])
+    if isinstance(new, SymArr) and new.ndim == 3:
+        idx = lambda r_: (y, x) if r_["result"].ndim == 2 else (b, y, x)   # noqa: E731
+        corr, norm = c1["func"](*idx(c1)), c2["func"](*idx(c2))
+        rng = AND(_rng(b, s.B), _rng(y, s.N), _rng(x, s.N))
+        out.append(("volume-update:_obj+=correction/normalisation-with-zeros-of-the-normalisation-replaced-by-1e-6",
+                    AND(*[lift(S(d)) == lift(e) for d, e in zip(new.shape, (s.B, s.N, s.N))],
+                        implies(AND(rng, M_ == lift(s.N), lift(c2["M"]) == lift(s.N)),
+                                reals._real(new.fn(b, y, x)) == s.old.raw(b, y, x) + corr / z3.If(norm == 0, z3.RealVal("1e-6"), norm)))))
+    else:
+        out.append(("volume-update:_obj+=correction/normalisation-with-zeros-of-the-normalisation-replaced-by-1e-6", z3.BoolVal(False)))
+    out.append(("tilt_series,angles-and-the-caller's-proj_forward-buffer-are-not-written", z3.BoolVal(s.tilt_series.writes == 0 and s.angles.writes == 0 and s.proj_forward.writes == 0)))
+    return out
+
+
+def rt_sirt(inp):
+    """The caller on the REAL classes with the three transform calls recorded: every call receives the caller's own volume / angles /
+    filter name / circle flag / residual, and the update is _obj + correction / normalisation."""
+    import torch
+    import quantem.tomography.tomography_conv as TCm
+    from quantem.tomography.object_models import ObjectVoxelwise
+
+    B, A, N = int(inp.get("B", 2)), int(inp.get("A", 3)), int(inp.get("N", 7))
+    fn, circle = inp.get("filter_name", "hann"), bool(inp.get("circle", True))
+    g = torch.Generator().manual_seed(int(inp.get("seed", 0)) + 17 * N)
+    vol = ObjectVoxelwise(volume_shape=(B, N, N), device="cpu")
+    vol._obj = torch.rand((B, N, N), generator=g) - 0.3      # some negative voxels: the object model's `obj` (positivity) differs from `_obj`
+    vol._hard_constraints = {"positivity": True, "shrinkage": 0.0}
+    me = TCm.TomographyConv.__new__(TCm.TomographyConv)
+    me._volume_obj, me._device = vol, "cpu"
+    tilt = torch.rand((B, A, N), generator=g)
+    angles = torch.tensor([round(13.0 + 150.0 * q / A, 3) for q in range(A)])
+    calls = []
+    r0, i0 = TCm.radon_torch, TCm.iradon_torch
+
+    def r_spy(images, theta=None, device=None):
+        out = r0(images, theta=theta, device=device)
+        calls.append(("radon", images.clone(), theta, device, out))
+        return out
+
+    def i_spy(sinograms, theta=None, output_size=None, filter_name="ramp", circle=True, device=None):
+        out = i0(sinograms, theta=theta, output_size=output_size, filter_name=filter_name, circle=circle, device=device)
+        calls.append(("iradon", sinograms.clone(), theta, output_size, filter_name, circle, device, out.clone()))
+        return out
+
+    before = vol._obj.clone()
+    vol_seen = vol.obj.clone()
+    TCm.radon_torch, TCm.iradon_torch = r_spy, i_spy
+    try:
+        proj, loss = me._sirt_run_epoch(tilt, torch.zeros_like(tilt), angles, False, fn, circle, None)
+    except Exception as e:  # noqa: BLE001
+        return _report([f"raised {type(e).__name__}: {str(e)[:160]}"], "no exception")
+    finally:
+        TCm.radon_torch, TCm.iradon_torch = r0, i0
+    problems = []
+    kinds = [c[0] for c in calls]
+    if kinds != ["radon", "iradon", "iradon"]:
+        return _report([f"calls {kinds}"], "radon_torch, iradon_torch, iradon_torch")
+    rc, c1, c2 = calls
+    if not torch.equal(rc[1], vol_seen) or rc[2] is not angles or rc[3] != "cpu":
+        problems.append("radon_torch did not receive the caller's volume / angles / device")
+    resid = tilt - rc[4].reshape(tilt.shape)
+    if c1[1].shape != resid.shape or not torch.allclose(c1[1], resid) or c1[2] is not angles or c1[4] != fn or c1[5] is not circle or c1[3] not in (None, N):
+        problems.append(f"first iradon_torch call: sinogram/theta/filter/circle = residual? {c1[1].shape == resid.shape and bool(torch.allclose(c1[1], resid))} / {c1[2] is angles} / {c1[4]!r} / {c1[5]!r}")
+    if c2[1].shape != resid.shape or not bool((c2[1] == 1).all()) or c2[2] is not angles or c2[4] is not None or c2[5] is not circle or c2[3] not in (None, N):
+        problems.append(f"second iradon_torch call: sinogram all ones? {bool((c2[1] == 1).all())}, theta {c2[2] is angles}, filter {c2[4]!r}, circle {c2[5]!r}")
+    if circle:
+        norm = c2[7].reshape(before.shape).clone()
+        norm[norm == 0] = 1e-6
+        exp = before + c1[7].reshape(before.shape) / norm
+        if not torch.allclose(vol._obj, exp, rtol=1e-5, atol=1e-6):
+            problems.append(f"volume update differs from _obj + correction/normalisation by {float((vol._obj - exp).abs().max()):.3e}")
+    if not torch.allclose(proj.reshape(tilt.shape), rc[4].reshape(tilt.shape)) or abs(float(loss) - float(resid.abs().mean())) > 1e-6:
+        problems.append("returned (projection, loss) are not (radon result, mean |residual|)")
+    return _report(problems, "every transform call receives the caller's own volume/angles/filter/circle/residual; _obj += correction/normalisation")
+
+
+rt_sirt = _never_crash(rt_sirt)
+
+
+def fam_sirt(tier="quick", seed=0):
+    for N, B, A in ((5, 2, 3), (8, 1, 2), (9, 3, 4)):
+        for fn in ("ramp", "hann", None):
+            # circle=True only: with circle=False the unchanged caller raises RuntimeError at `_obj += correction` ([M,M] reconstruction
+            # against [N,N] slices). That is a defect of the SIRT driver, not of the transforms C07 speaks about (radon / filter /
+            # iradon agree with scikit-image), so it is recorded as an observation in DESIGN.md 12.1e (candidate repair
+            # proposed_fixes/C07_6.diff), not raised and not listed as a finding of C07.
+            for circle in (True,):
+                yield dict(N=N, B=B, A=A, filter_name=fn, circle=circle, seed=seed)
+
+
+def sirt_conc(ev):
+    return dict(N=7, B=2 if (ev("B") or 2) != 1 else 1, A=3, filter_name="hann", circle=True)
+
+
+def klass_sirt(inp, res):
+    return "circle=False" if not inp.get("circle", True) else f"circle=True, filter {inp.get('filter_name')}"
+
+
+B_SIRT = "caller _sirt_run_epoch: the transform calls receive the caller's own data (real classes, calls recorded)"
+
+
+C_SIRT = Contract(
+    f"{TC}:TomographyConv._sirt_run_epoch", setup=sirt_setup, requires=sirt_requires, ensures=sirt_ensures,
+    snapshot=lambda s: NS(raw=s.vol_raw.func),
+    overrides={f"{RAD}:radon_torch": C_RADON_CALL, f"{RAD}:iradon_torch": C_IRADON_CALL, f"{OM}:ObjectConstraints.apply_hard_constraints": C_HARD},
+    concretize=sirt_conc, rt=rt_sirt, rt_family=lambda: (i_ for i_ in fam_sirt() if i_["circle"]),   # circle=False is a listed finding: not a replay target
+    note="call-site preconditions of radon_torch / iradon_torch at their only quantem call site; the callees are used through call-site contracts "
+         "whose shape clauses are those proved for the bodies; inline_alignment=False, gaussian_kernel=None",
+)
+
+CONTRACTS = [C_FILTER, C_IRADON, C_RADON, C_SIRT]
 
 # ======================================================================================================================
 # property-level lemmas (proved from the contract statements alone)
@@ -1339,8 +1749,9 @@ BOUNDED = [
     Bounded.from_rt("0-degree projection == masked column sums", rt_zero_degree, fam_zero, "N=3..33, batch 2", klass=klass_radon),
     Bounded.from_rt("batched == per-image", rt_batched, fam_batched, "both transforms, N in {3,4,5,8,9,16,17,32,33}, batch 2..3, all filters", klass=lambda i, r: f"{i['which']} N={i['N']}"),
     Bounded.from_rt("linearity", rt_linear, fam_linear, "both transforms, N in {3,4,5,8,9,16,17,32,33}", klass=lambda i, r: f"{i['which']} N={i['N']}"),
+    Bounded.from_rt(B_SIRT, rt_sirt, fam_sirt, "N in {5,8,9}, batch 1..3, filters ramp/hann/None, circle True and False", klass=klass_sirt),
     Bounded.from_rt("spec-conformance: contract geometry == matrix passed to skimage warp", rt_spec_conformance, fam_conformance, "6 sizes x 5 angles"),
-    Bounded.from_rt("library-model conformance", rt_models, lambda: [dict()], "fftfreq/fftshift/windows/linspace/2**ceil(log2)/arange/grid_sample on small inputs"),
+    Bounded.from_rt("library-model conformance", rt_models, lambda: [dict()], "fftfreq/fftshift/windows/linspace/2**ceil(log2)/arange/grid_sample/rot90 on small inputs"),
 ]
 
 TRUSTED = [
@@ -1350,17 +1761,26 @@ TRUSTED = [
     "grid_sample(mode='bilinear', padding_mode='zeros', align_corners=True) = bilinear interpolation with zeros outside at x=(g+1)/2*(W-1); "
     "fftfreq, fftshift (out[i]=in[(i-n//2) mod n]), hamming/hann windows 0.54-0.46cos(2 pi k/(n-1)) / 0.5-0.5cos(...); 2**ceil(log2 x) = smallest power of two >= x (1<=x<=2^31); "
     "C-order flatten followed by view to the original shape is the identity (each checked numerically against the real library by the bounded check `library-model conformance`)",
-    "A4: cos^2+sin^2=1, cos 0=1, sin 0=0 (ground instances)",
+    "A4: cos^2+sin^2=1, cos 0=1, sin 0=0 (ground instances); cos(n*pi/2), sin(n*pi/2) = (1,0),(0,1),(-1,0),(0,-1) for an integer n = 0,1,2,3 mod 4 "
+    "(ground instance at n = floor(theta/90), used only on paths of radon_torch whose angle is known to be a multiple of 90 degrees - no such path exists on the unchanged tree)",
+    "A6 (added): torch.rot90 / Tensor.flip = exact index maps (rot90: k mod 4 decides among (i,j), (j,n1-1-i), (n0-1-i,n1-1-j), (n0-1-j,i); checked for every k mod 4, "
+    "negative k, non-square planes by `library-model conformance`); ones_like / zeros_like / abs elementwise; torch.mean(x) = an uninterpreted scalar that is a function of x; "
+    "torch.arange(integer literals) as the index function i -> start+i*step (so the default-theta loop is verified by its invariant instead of 180 unrollings)",
     "T2 Sigma re-indexing: sum_{i<N} f(i) = sum_{r<N} g(r) whenever f(i) = g(N-1-i) on [0,N); Sigma-congruence; definition of partial sums PS(0)=0, PS(k+1)=PS(k)+term(k)",
     "skimage.transform.warp(order=1, mode='constant', cval=0) = bilinear interpolation with zeros outside (same element function as grid_sample zeros) - compared numerically by the bounded radon check only",
     "pyvc engine (AST interpreter, loop rule, path exploration), z3, cvc5",
 ]
 ASSUMPTIONS = [
     "A1 floats are reals: float32 rounding (grid coordinates, log2, filter) is ignored in the deductive part; tolerances 1e-5*max|ref| appear only in the bounded checks",
-    "deductive scope: square images [B,N,N] with N>=2, explicit theta of symbolic length (radon_torch: theta=None iterates a concrete 180-element tensor - bounded only); "
+    "deductive scope: square images [B,N,N] with N>=2, explicit theta of symbolic length AND theta=None (radon_torch: the default arange(180) goes through the same loop contract, "
+    "with the clause `default-theta-is-skimage's-np.arange(180)`); "
     "iradon_torch: output_size=None, filter_name in {ramp, unknown} (the filter is used through its contract), circle=True for the value statement - for circle=False only shape/padding/pipeline are proved",
     "non-square inputs (crop branch of radon_torch) and device handling are outside the stated quantifier and not covered",
-    "callers in tomography_conv.py are not under contract (they pass explicit theta / filter / circle)",
+    "caller TomographyConv._sirt_run_epoch (the only quantem call site of the transforms) is verified from source with inline_alignment=False, gaussian_kernel=None, arbitrary "
+    "filter_name, and circle=True: with circle=False the real function raises RuntimeError at `_obj += correction` ([M,M] reconstruction, [N,N] volume) - listed known finding of "
+    "the bounded caller check, candidate fix proposed_fixes/C07_6.diff; inside it the transforms are used through call-site contracts (preconditions = the caller's own volume / "
+    "angles / device / filter name / circle flag / residual, result shapes = the shape clauses proved for the bodies) and ObjectConstraints.apply_hard_constraints through an "
+    "ASSUMED shape-only contract (returns a new tensor of the shape of its argument; the object model is outside C07)",
     "statements are made at one arbitrary output entry (Skolem constants b!px, y!px, x!px / b!px, a!px, j!px): this is universal quantification over the entry",
 ]
 EXPLANATION = ("VCs generated from the real source of radon_torch / iradon_torch / get_fourier_filter_torch (and of scikit-image's _get_fourier_filter) "
